@@ -71,7 +71,7 @@ def gen_hyper(rng, comps, has_tasks):
       width = (c["hi"] - c["lo"]) if c["t"] in ("double", "int") else (c["el"][-1] - c["el"][0])
       ls.append([round(rng.uniform(0.25, 1.5) * width, 3)])
   return dict(alpha=round(rng.uniform(0.05, 2.0), 4), ls=ls, task_len=round(rng.uniform(0.3, 1.2), 3) if has_tasks else None,
-              tik=round(rng.uniform(1e-3, 0.1), 5) if rng.random() < 0.3 else None)
+              tik=rng.choice([round(rng.uniform(1e-3, 0.1), 5)] * 6 + [0.0]) if rng.random() < 0.35 else None)   # a supplied nugget may be exactly 0
 
 
 PHASE_TARGETS = ["init", "opt1", "random", "seq", "polish", "eps", "eps", "eps", "completion"]
